@@ -248,6 +248,35 @@ Definition layout_okb (fs : FS) : bool :=
   | None => false
   end.
 
+(* ---------- crash, then oci.New on the directory that was left behind ---------- *)
+(* loadIndex: every entry is tagged by its digest; an entry with a ref name is tagged by it
+   too (a later entry with the same name wins) *)
+Fixpoint load (l : list entry) (tags : list (N * N)) (digs : list N) : list (N * N) * list N :=
+  match l with
+  | [] => (tags, digs)
+  | (n, Some r) :: l' => load l' (tag_set r n tags) (dig_add n digs)
+  | (n, None) :: l' => load l' tags (dig_add n digs)
+  end.
+
+(* oci.New on an existing layout changes nothing on disk; leftover temporaries stay where
+   they are.  [c] continues the operation counter (temporary names never repeat). *)
+Definition reopen (fs : FS) (c : nat) : st :=
+  match read_index fs with
+  | Some l => mkSt fs (fst (load l [] [])) (snd (load l [] [])) c
+  | None => mkSt fs [] [] c        (* oci.New fails: excluded by the theorems *)
+  end.
+
+(* a history in which operations complete or are interrupted (and the store is reopened) *)
+Inductive hop := Done (o : op) | Crashed (o : op) (k : nat).
+
+Definition run_hop (s : st) (x : hop) : st :=
+  match x with
+  | Done o => run_op s o
+  | Crashed o k => reopen (crash_fs s o k) (S (sctr s))
+  end.
+
+Definition runc (h : list hop) (s : st) : st := fold_left run_hop h s.
+
 Fixpoint chunks_of (l : list atom) : option (list N) :=
   match l with
   | [] => Some []
